@@ -105,6 +105,13 @@ impl<const ROUNDS: usize> State<ROUNDS> {
         }
     }
 
+    /// verification hook: preset the two counter words
+    #[cfg(cryptoxide_verif)]
+    pub(crate) fn verif_set_counter64(&mut self, counter: u64) {
+        self.state[8] = counter as u32;
+        self.state[9] = (counter >> 32) as u32;
+    }
+
     #[inline]
     pub(crate) fn increment(&mut self) {
         self.state[8] = self.state[8].wrapping_add(1);
@@ -156,6 +163,13 @@ impl<const ROUNDS: usize> Salsa<ROUNDS> {
             output: [0; 64],
             offset: 64,
         }
+    }
+
+    /// verification hook: preset the full 64-bit block counter
+    #[cfg(cryptoxide_verif)]
+    pub fn verif_set_counter64(&mut self, counter: u64) {
+        self.state.verif_set_counter64(counter);
+        self.offset = 64;
     }
 
     fn update(&mut self) {
@@ -235,6 +249,13 @@ impl<const ROUNDS: usize> XSalsa<ROUNDS> {
             offset: 64,
         };
         xsalsa
+    }
+
+    /// verification hook: preset the full 64-bit block counter
+    #[cfg(cryptoxide_verif)]
+    pub fn verif_set_counter64(&mut self, counter: u64) {
+        self.state.verif_set_counter64(counter);
+        self.offset = 64;
     }
 
     fn update(&mut self) {
